@@ -105,6 +105,27 @@ func chainRecA(n int, leaf *zoo.RecA) *zoo.RecA {
 	return cur
 }
 
+
+// dagRec: an acyclic chain of n nodes through Next. One shared leaf is referenced near the root
+// (before the chain is descended) and again from the deepest node; every 97th node also points
+// back up to a node that is already finished (its Side) - sharing without a cycle, above and below
+// the depth at which cycle detection switches on.
+func dagRec(n int) *zoo.RecDag {
+	leaf := &zoo.RecDag{ID: -1}
+	root := &zoo.RecDag{ID: 0, Side: leaf}
+	cur := root
+	for i := 1; i < n; i++ {
+		nx := &zoo.RecDag{ID: i}
+		if i%97 == 0 {
+			nx.Side = leaf
+		}
+		cur.Next = nx
+		cur = nx
+	}
+	cur.Tail = leaf
+	return root
+}
+
 func chainRecB(n int) *zoo.RecB {
 	var cur *zoo.RecB
 	for i := 0; i < n; i++ {
@@ -246,7 +267,7 @@ func init() {
 				// deep acyclic chains through every recursive zoo type, all four interpreters
 				d := depths[k]
 				vals := []any{chainRecA(d, nil), chainRecA(d, &zoo.RecA{I: nestedIface(d % 60)}), chainRecB(d), chainRecE(d), chainRecC(d), nestedIface(d),
-					[]interface{}{chainRecB(d / 2), chainRecE(d / 2)}, map[string]interface{}{"a": chainRecC(d / 2), "b": nestedIface(d / 2)}}
+					[]interface{}{chainRecB(d / 2), chainRecE(d / 2)}, map[string]interface{}{"a": chainRecC(d / 2), "b": nestedIface(d / 2)}, dagRec(d), dagRec(d + 1)}
 				for i, x := range vals {
 					if !c.Cur(i, fmt.Sprintf("shapes=core\ndeep chain %T depth %d", x, d)) {
 						continue
@@ -260,7 +281,7 @@ func init() {
 					}
 					c08Run(c, i, x, reflect.TypeOf(x), "", ips, false)
 					// result must still be what encoding/json produces (clobbered frames garble output)
-					if d <= 200 {
+					if d <= 200 || i >= 8 {
 						gb1, gerr := gojson.Marshal(x)
 						sb1, serr := stdjson.Marshal(x)
 						c.Eval(1)
